@@ -5,6 +5,7 @@ import VlsModel.Gen.FnSimpleClose
 import VlsModel.Gen.FnChannelClose
 import VlsModel.Gen.FnCloseDecode
 import VlsModel.Gen.FnB3TxUtilClose
+import VlsModel.Gen.FnB3ChannelShutdown
 import VlsModel.Lemmas.FnGen
 /-
 C07 — the epsilon comparisons of the mutual-close model (`MutualClose.outsideEps`, `minToHolder`,
@@ -672,5 +673,35 @@ example : Gen.FnB3TxUtilClose.mutual_close_tx_weight (fun (_ : Unit) => 496) () 
   rw [C07_fn_mutual_close_tx_weight]; rfl
 example : closeWeight ⟨1000, 2000, some ⟨1000, 1, 22, 1, true, false⟩, some ⟨2000, 2, 22, 2, false, false⟩⟩
     = 4 * (4 + 1 + 41 + 1 + 31 + 31 + 4) + 222 := by rfl
+
+/-! ### Round 10 (b3): `Channel::get_ldk_shutdown_script` (`Gen.FnB3ChannelShutdown`, channel.rs)
+
+Where the holder's funds go in a mutual close: the **upfront** `holder_shutdown_script` of the setup whenever there is one
+(the node's own script is then not even computed — `unwrap_or_else` is lazy), otherwise the node's shutdown script
+(external; `unwrap` panics if the keys manager has none, `upgrade().unwrap()` if the node is gone). -/
+
+theorem C07_fn_get_ldk_shutdown_script {N S : Type} (nodeScript : N → Option S)
+    (c : Gen.FnB3ChannelShutdown.Channel N S) :
+    c.get_ldk_shutdown_script nodeScript
+      = match c.setup.holder_shutdown_script with
+        | some s => .ok s
+        | none => match c.node with
+          | none => .error .panic
+          | some n => match nodeScript n with
+            | some s => .ok s
+            | none => .error .panic := by
+  unfold Gen.FnB3ChannelShutdown.Channel.get_ldk_shutdown_script Gen.FnB3ChannelShutdown.Channel.get_node
+  cases c.setup.holder_shutdown_script with
+  | some s => rfl
+  | none =>
+    cases hn : c.node with
+    | none => rfl
+    | some n => cases hs : nodeScript n <;> simp [Rs.unwrap, Rs.panic, hs, bind, Except.bind, pure, Except.pure]
+
+/-- the upfront script wins, whatever the node would answer (C07: "holder output = upfront script") -/
+theorem C07_fn_get_ldk_shutdown_script_upfront {N S : Type} (nodeScript : N → Option S)
+    (c : Gen.FnB3ChannelShutdown.Channel N S) (s : S) (h : c.setup.holder_shutdown_script = some s) :
+    c.get_ldk_shutdown_script nodeScript = .ok s := by
+  rw [C07_fn_get_ldk_shutdown_script, h]
 
 end VlsModel.Props.C07Fn
